@@ -9,6 +9,12 @@
                        that case nothing is written and the previously generated files stay in place.
     FACTS_FOR          property id -> the Props/Facts*.v files whose obligations belong to it; build them
                        with check.coq_props / check.coq_build after regenerate().
+
+For the properties of HDRTRANS_FOR (C12, C13) regenerate(check) instead runs the Go -> Gallina translator
+`ftdcverif hdrtrans <verif.REPO> <verif.COQ>/Generated/HdrArith.v` (harness/hdrtrans.go): the integer arithmetic
+of hdrhist/hdr.go as Gallina definitions, proved equal to Model/Hdr.v in Proofs/HdrTranslated.v (obligations:
+Props/FactsHdr.v).  Same contract: rewritten only when changed, nothing written when the source is outside the
+translator's Go subset.
 """
 import os
 import re
@@ -24,10 +30,16 @@ FACTS_FOR = {
     "C20": ["Props/FactsCaps.v"],    # max_samples, second_ms
     "C06": ["Props/FactsCaps.v"],    # channel capacities of the reader pipelines
     "C10": ["Props/FactsLocks.v"],   # synchronized collectors and catcher: write lock on every mutating method
+    "C12": ["Props/FactsHdr.v"],     # hdrhist/hdr.go integer arithmetic, translated, equals Model/Hdr.v
+    "C13": ["Props/FactsHdr.v"],     # same functions (highest/lowest/medianEquivalentValue under the quantiles)
 }
 
 # properties whose obligations read Generated/LockPaths.v (harness/lockpaths.go); C16's own check regenerates it itself
 LOCKPATHS_FOR = {"C10"}
+
+# properties whose obligations read Generated/HdrArith.v (harness/hdrtrans.go)
+HDRTRANS_FOR = {"C12", "C13"}
+HDRTRANS_GENERATED = "HdrArith.v"
 
 
 def regenerate(check):
@@ -37,6 +49,11 @@ def regenerate(check):
         rc, out = check.harness(["lockpaths", verif.REPO, os.path.join(out_dir, "LockPaths.v")], timeout=120)
         ok = rc == 0 and re.search(r"lockpaths: \d+ entries", out) is not None
         return ok, out
+    if check.pid in HDRTRANS_FOR:
+        rc, out = check.harness(["hdrtrans", verif.REPO, os.path.join(out_dir, HDRTRANS_GENERATED)], timeout=120)
+        ok = rc == 0 and re.search(r"^hdrtrans: %s (unchanged|written)$" % re.escape(HDRTRANS_GENERATED), out,
+                                   flags=re.M) is not None
+        return ok, out
     rc, out = check.harness(["facts", verif.REPO, out_dir], timeout=120)
     ok = rc == 0 and all(re.search(r"^facts: %s (unchanged|written)$" % re.escape(f), out, flags=re.M)
                          for f in GENERATED)
@@ -45,4 +62,4 @@ def regenerate(check):
 
 def changed(log):
     """names of the generated files the last regenerate() rewrote"""
-    return re.findall(r"^facts: (\S+) written$", log, flags=re.M)
+    return re.findall(r"^(?:facts|hdrtrans): (\S+) written$", log, flags=re.M)
